@@ -1,4 +1,5 @@
 import Tcs.Props.C02
+import Tcs.Props.C10
 import Tcs.Proofs.NoWrite
 namespace Tcs
 
